@@ -93,7 +93,68 @@ def payload_sizes(ctx, u, exhaustive):
     return sorted(x for x in s if x <= top)
 
 
+def wide_header_cell(kind, u, ncols):
+    """a record whose header (ncols one-byte serial types) is longer than the local part of the payload: the header
+    itself continues on the first overflow page.  -> None when the cell does not fit, else error text or
+    (number of columns parsed, values ok)"""
+    hdr_len = ncols + (1 if ncols + 1 < 128 else 2 if ncols + 2 < 16384 else 3)
+    body = bytes((i * 5 + 1) & 0x7F for i in range(ncols))
+    payload = put_varint(hdr_len) + b"\x01" * ncols + body
+    p = len(payload)
+    limit = u - 35 if kind == "table" else ((u - 12) * 64 // 255) - 23
+    m = ((u - 12) * 32 // 255) - 23
+    if p <= limit:
+        b_loc = p
+    else:
+        k = m + (p - m) % (u - 4)
+        b_loc = k if k <= limit else m
+    pre = struct.pack(">I", 2) if kind == "indexinterior" else b""
+    head = pre + put_varint(p) + (put_varint(1) if kind == "table" else b"")
+    cell = head + payload[:b_loc] + (struct.pack(">I", 10) if b_loc < p else b"")
+    start = 100
+    if start + len(cell) > u:
+        return None
+    page = bytearray(u)
+    page[start:start + len(cell)] = cell
+    rest = payload[b_loc:]
+
+    def page_fn(n):
+        k = n - 10
+        chunk = rest[k * (u - 4):(k + 1) * (u - 4)]
+        nxt = n + 1 if (k + 1) * (u - 4) < len(rest) else 0
+        return struct.pack(">I", nxt) + chunk + b"\x00" * (u - 4 - len(chunk))
+    leaf = bytearray(u)
+    leaf[0] = 0x0A
+    struct.pack_into(">H", leaf, 5, u & 0xFFFF)
+    v = StubVersion(u, pages={2: bytes(leaf)}, page_fn=page_fn)
+    cls = {"table": TableLeafCell, "index": IndexLeafCell, "indexinterior": IndexInteriorCell}[kind]
+
+    def f():
+        c = cls(v, 0, 0, 1, bytes(page), 0, start)
+        cols = c.payload.record_columns
+        return len(cols), all(int(rc.value) == body[i] for i, rc in enumerate(cols)), b_loc < hdr_len
+    return guarded(f)
+
+
 def run(ctx):
+    # record headers that spill onto the overflow chain (wide tables / wide index keys)
+    for u in PAGE_SIZES:
+        m = ((u - 12) * 32 // 255) - 23
+        for kind in ("table", "index", "indexinterior"):
+            limit = u - 35 if kind == "table" else ((u - 12) * 64 // 255) - 23
+            for ncols in sorted({limit + 3, limit + 40, m + u, 2 * u}):
+                if ncols > 32000:
+                    continue
+                r = wide_header_cell(kind, u, ncols)
+                if r is None:
+                    continue
+                ctx.evals += 1
+                ctx.branch("wide-header-cell")
+                if isinstance(r, str) or r[0] != ncols or not r[1]:
+                    ctx.oracle_fail("wide-header", "a record whose header continues on the first overflow page is not decoded column by column",
+                                    {"kind": kind, "u": u, "ncols": ncols}, r if isinstance(r, str) else list(r), [ncols, True])
+                elif r[2]:
+                    ctx.nontrivial.add(("wide-header", kind, u, ncols))
     cases = []
     ocases = []
     exhaustive_all = ctx.tier == "thorough"
